@@ -14,6 +14,7 @@ import (
 
 	"github.com/atlassian/gostatsd"
 	"github.com/atlassian/gostatsd/pkg/cachedinstances/k8s"
+	"github.com/atlassian/gostatsd/pkg/stats"
 	"github.com/sirupsen/logrus"
 	core_v1 "k8s.io/api/core/v1"
 	"k8s.io/apimachinery/pkg/watch"
@@ -22,6 +23,7 @@ import (
 	"pgregory.net/rapid"
 
 	"verifharness/internal/ev"
+	"verifharness/internal/fakes"
 	"verifharness/internal/vt"
 )
 
@@ -118,9 +120,19 @@ func TestLookupInFlightDuringEvent(t *testing.T) {
 		if err != nil {
 			t.Fatalf("NewProvider: %v", err)
 		}
-		ctx, cancel := context.WithCancel(context.Background())
+		// the provider runs as it does inside a server: with an internal statser in its context - in forwarder mode, where
+		// reporting a counter also resets it - and whatever internal-metrics runner it has (today it has none) running
+		statser := stats.NewInternalStatser(nil, "statsd", "", fakes.NewSink(), true, rapid.Bool().Draw(t, "forwarder-mode-statser"))
+		ctx, cancel := context.WithCancel(stats.NewContext(context.Background(), statser))
 		done := make(chan struct{})
 		go func() { prov.Run(ctx); close(done) }()
+		if mr, ok := interface{}(prov).(gostatsd.MetricsRunner); ok {
+			go mr.RunMetricsContext(ctx)
+		}
+		flushStats := func() {
+			statser.NotifyFlush(ctx, time.Second)
+			time.Sleep(300 * time.Microsecond)
+		}
 		var w *watch.FakeWatcher
 		select {
 		case w = <-watchers:
@@ -302,6 +314,11 @@ func TestLookupInFlightDuringEvent(t *testing.T) {
 				}
 				continue
 			}
+			if rapid.Bool().Draw(t, "stats-flush-before-lookup") {
+				flushStats()
+				flushStats()
+				history = append(history, "internal metrics flushed twice")
+			}
 			before := expect(x)
 			parked, release := hook.arm(x)
 			releaseOnExit = release
@@ -372,6 +389,11 @@ func TestLookupInFlightDuringEvent(t *testing.T) {
 			}
 			history = append(history, what)
 			barrier() // the event has been observed (index and invalidation)
+			if rapid.Bool().Draw(t, "stats-flush-while-in-flight") {
+				flushStats()
+				flushStats()
+				history = append(history, "internal metrics flushed twice")
+			}
 			after := expect(x)
 			if after != before {
 				changedRounds++
